@@ -86,6 +86,13 @@ static std::string public_dump(const upa::url& u) {
     s += " ht=" + std::to_string(static_cast<int>(u.host_type()));
     s += " op=";
     s += u.has_opaque_path() ? '1' : '0';
+    s += " pi=" + std::to_string(u.port_int()) + " rpi=" + std::to_string(u.real_port_int());
+    s += " sf=";
+    s += u.is_special_scheme() ? '1' : '0';
+    s += u.is_file_scheme() ? '1' : '0';
+    s += u.is_http_scheme() ? '1' : '0';
+    s += u.has_credentials() ? '1' : '0';
+    if (u.to_string() != std::string(u.href().data(), u.href().size()) || u.get_href() != u.href() || u.get_pathname() != u.pathname() || u.get_search() != u.search() || u.get_hash() != u.hash() || u.get_host() != u.host() || u.get_hostname() != u.hostname() || u.get_port() != u.port() || u.get_protocol() != u.protocol() || u.get_username() != u.username() || u.get_password() != u.password() || u.get_path() != u.path() || u.empty()) s += " ALIAS-DIFF";
     return s;
 }
 static std::string pairs_str(const upa::url_search_params& p) {
